@@ -1062,3 +1062,22 @@ Proof.
     apply (cell_ok_flat t r o); assumption.
 Qed.
 End PathTheorem.
+
+(* ------------------------------------------------------------------ a decidable sufficient condition for tree_ok (used for the Examples) *)
+Lemma wf_b_sound t : forallb (fun lv => znodup_b (nodes lv)) t = true -> wf t.
+Proof.
+  intros H. apply Forall_forall. intros lv Hlv. rewrite forallb_forall in H.
+  apply znodup_b_spec. apply H. exact Hlv.
+Qed.
+Definition has_child_b (t : tree) : bool :=
+  forallb (fun k => forallb (fun x => negb (is_nil (children_of (nth k t []) x))) (nodes (nth k t [])))
+          (seq 0 (length t - 1)).
+Lemma tree_ok_b t : validate t = true -> forallb (fun lv => znodup_b (nodes lv)) t = true ->
+  negb (is_nil (nodes (hd [] t))) = true -> has_child_b t = true -> tree_ok t.
+Proof.
+  intros V W T H. apply tree_ok_of_validate;
+    [exact V | apply wf_b_sound; exact W | destruct (nodes (hd [] t)); discriminate |].
+  intros k x Hk Hx. unfold has_child_b in H. rewrite forallb_forall in H.
+  specialize (H k ltac:(apply in_seq; lia)). rewrite forallb_forall in H. specialize (H x Hx).
+  destruct (children_of (nth k t []) x); discriminate.
+Qed.
